@@ -747,6 +747,9 @@ func extractC15(c *ctxT) {
 	b.WriteString("]\n\n")
 	c.facts["C15.activateSteps"] = asteps
 
+	c15EmitLookup(c, b, "customPeriodSteps", "x/gov/keeper/proposal.go GetCustomMsgVotingPeriod: its top-level statements in source order, as (kind, argument) pairs", c15LookupSteps(c, kdir, "GetCustomMsgVotingPeriod", lookupKind("GetCustomMsgVotingPeriod")))
+	c15EmitLookup(c, b, "customQuorumSteps", "x/gov/keeper/proposal.go GetCustomMsgQuorum: its top-level statements in source order, as (kind, argument) pairs", c15LookupSteps(c, kdir, "GetCustomMsgQuorum", lookupKind("GetCustomMsgQuorum")))
+
 	c15SdkSteps(c, b)
 
 	b.WriteString("end FxVerif.Gen.C15\n")
